@@ -88,6 +88,11 @@ register('C17', 'Hypothesis-generated call histories against one cache directory
          'one-byte-short / garbage damage, fresh operator objects, colliding-repr lists of two curves, equal-size lists) returns the single-pair array bit for bit and leaves a loadable file.',
          'OS scheduling of the workers is not controlled; worker count, chunking and history are', 'DESIGN.md 3/C17')
 
+register('C20', 'Hypothesis (mesh history, data configuration, density, path) against an independent recomputation on a replayed, really bisected mesh',
+         'h-h/2 estimate == energy norm of fine Galerkin solution minus extension, assembled from single-pair calls in a different element order (1e-6); vanishing case; '
+         'hierarchical indicators from geometric sign patterns and single-pair entries; non-negativity; Prolongate vs geometric containment; serial and pool.',
+         'single-pair bilform / linform as building blocks (C01 / C08); numerators compared relative to the magnitude of their contributions', 'DESIGN.md 3/C20')
+
 NOT_YET = {}
 def main():
     props = [json.loads(l)['id'] for l in open(os.path.join(V, 'properties.jsonl'))]
